@@ -1759,10 +1759,12 @@ func ReadTerm(vm *VM, streamOrAlias, out, options Term, k Cont, env *Env) *Promi
 	}
 
 	p := NewParser(vm, s)
+	eos := s.endOfStream
 
 	t, err := p.Term()
 	if err != io.EOF { // Gives the lookahead back before the continuation reads from the stream, unless end_of_file is delivered.
 		_ = s.UnreadRune()
+		s.lookedAhead(eos)
 	}
 	switch err {
 	case nil:
@@ -1917,8 +1919,14 @@ func PeekByte(vm *VM, streamOrAlias, inByte Term, k Cont, env *Env) *Promise {
 		return Error(typeError(validTypeInByte, inByte, env))
 	}
 
+	eos := s.endOfStream
 	b, err := s.ReadByte()
-	_ = s.UnreadByte()
+	switch err {
+	case nil:
+		_ = s.UnreadByte()
+	case io.EOF: // There's nothing to unread. Unreading here would give the last byte back.
+		s.lookedAhead(eos)
+	}
 	switch err {
 	case nil:
 		return Unify(vm, inByte, Integer(b), k, env)
@@ -1953,8 +1961,14 @@ func PeekChar(vm *VM, streamOrAlias, char Term, k Cont, env *Env) *Promise {
 		return Error(typeError(validTypeInCharacter, char, env))
 	}
 
+	eos := s.endOfStream
 	r, _, err := s.ReadRune()
-	_ = s.UnreadRune()
+	switch err {
+	case nil:
+		_ = s.UnreadRune()
+	case io.EOF:
+		s.lookedAhead(eos)
+	}
 	switch err {
 	case nil:
 		if r == unicode.ReplacementChar {
